@@ -58,7 +58,7 @@ def run_demo(demo: Path):
         return -9, "timeout"
 
 
-def do_import(out_dir: Path, prop: str):
+def do_import(out_dir: Path, prop: str, tag: str = ""):
     kept = 0
     for meta in sorted(out_dir.glob("meta*.json")):
         n = meta.stem[4:]
@@ -77,12 +77,12 @@ def do_import(out_dir: Path, prop: str):
         ok_base = "1175/1175" in base.stdout
         print(f"{prop}-{n}: demo unpatched exit {rc0}, patched exit {rc1}; baseline {'ok' if ok_base else 'FAILS: ' + base.stdout[-300:]}")
         if rc0 == 0 and rc1 != 0 and ok_base:
-            d = VERIF / "seeded" / f"{prop}-{n}"
+            d = VERIF / "seeded" / (f"{prop}-{tag}{n}" if tag else f"{prop}-{n}")
             d.mkdir(parents=True, exist_ok=True)
             shutil.copy(patch, d / "patch.diff")
             shutil.copy(demo, d / ("demo" + demo.suffix))
             m = json.loads(meta.read_text())
-            m.update({"property": prop, "confirmed": {"demo_unpatched_exit": rc0, "demo_patched_exit": rc1, "baseline": "1175/1175 with the patch",
+            m.update({"property": prop, "wave": tag or "w1", "confirmed": {"demo_unpatched_exit": rc0, "demo_patched_exit": rc1, "baseline": "1175/1175 with the patch",
                                                       "how": "tools/seeded.py import: scratch worktree of /repo HEAD, demo run before/after git apply, tools/baseline.py"},
                       "demo_output_patched": out1[-800:]})
             (d / "meta.json").write_text(json.dumps(m, indent=1))
@@ -129,7 +129,7 @@ def main():
         print(__doc__)
         return 2
     if sys.argv[1] == "import":
-        do_import(Path(sys.argv[2]), sys.argv[3])
+        do_import(Path(sys.argv[2]), sys.argv[3], sys.argv[4] if len(sys.argv) > 4 else "")
     elif sys.argv[1] == "run":
         do_run(sys.argv[2], sys.argv[3:])
     elif sys.argv[1] == "runall":
